@@ -55,3 +55,12 @@ Print Assumptions C02_exact_match_used.
 Theorem C02_exact_match_in_range : forall sp t i, find_on sp t = Some i -> i + length t <= length (map_text sp).
 Proof. exact find_on_in_range. Qed.
 Print Assumptions C02_exact_match_in_range.
+
+(* where context trimming cuts (fix D48): before the two whole-delimiter absorptions, each cut either vanishes or stands where it does
+   not halve a ** delimiter and the trimmed context keeps balanced ** and _ counts - for every pair of texts and every isspace *)
+Theorem C02_trim_cuts : forall isspace t n, t <> [] -> n <> [] ->
+  exists p s, trim isspace t n = absorb t n [c_us] (absorb t n [c_star; c_star] (p, s))
+    /\ (p = 0 \/ (unbalanced (firstn p t) = false /\ splits_star t p = false))
+    /\ (s = 0 \/ (unbalanced (lastn s t) = false /\ splits_star t (length t - s) = false)).
+Proof. exact trim_cuts. Qed.
+Print Assumptions C02_trim_cuts.
